@@ -5,7 +5,7 @@ CONSTANTS
   Kind = "pais"
   Atoms <- AtomsList
   Prefix <- PfxNone
-  MaxLen = 4
+  MaxLen = 5
   Cfgs <- CfgsPAIs
   Junk = 34
   EmitOn = TRUE
